@@ -13,6 +13,9 @@ PROPS["C08"] = dict(
         "Zrnt.Proofs.C08.afterUpgrade_eq_ctxOf",
         "Zrnt.Proofs.C08.block_eq_ctxOf",
         "Zrnt.Proofs.C08.afterDeposit_eq_ctxOf",
+        "Zrnt.Proofs.C08.epochWritesB_sound",
+        "Zrnt.Proofs.C08.checked_step_inEpoch",
+        "Zrnt.Proofs.C08.checked_step_boundary",
         "Zrnt.Proofs.C08.chain_ctx_invariant",
         "Zrnt.Proofs.C08.reload_equiv",
         "Zrnt.Proofs.C08.ctx_reads_in_range_partial",
@@ -29,8 +32,8 @@ PROPS["C08"] = dict(
         "Lean SHA-256 (seeds, shuffling, proposer sampling are hash-driven: every compared list depends on it)",
     ],
     manifest=dict(
-        level_text="Lean theorems about the from-scratch context ctxOf and the code-shaped incremental operations (look-ahead stability of active sets and seeds under everything an epoch may write; rotate = ctxOf at epoch boundaries), plus on every run a three-way comparison along generated chains of all forks: dump(live EpochsContext) = dump(NewEpochsContext(spec, state)) = Lean ctxOf(state) after every slot, block, epoch boundary, deposit and fork upgrade, and the serialize-reload-continue experiment",
-        level_note="trusted: Lean kernel, the spec helper transcription used by ctxOf, the chain generator's coverage, SHA-256 in Lean; the abstract write relation EpochWrites is an assumption about the transition (discharged for the real code only by the correspondence run)",
+        level_text="Lean theorems about the from-scratch context ctxOf and the code-shaped incremental operations (look-ahead stability of active sets and seeds under everything an epoch may write; rotate = ctxOf at epoch boundaries), plus on every run a three-way comparison along generated chains of all forks: dump(live EpochsContext) = dump(NewEpochsContext(spec, state)) = Lean incremental model (rotate/afterDeposit/afterUpgrade) = Lean ctxOf(state) after every slot, block, epoch boundary, deposit and fork upgrade, and the serialize-reload-continue experiment",
+        level_note="trusted: Lean kernel, the spec helper transcription used by ctxOf, the chain generator's coverage, SHA-256 in Lean; the step theorems assume the write relation EpochWrites (what a block / epoch transition of epoch N may write); zmodel evaluates its sound decision procedure epochWritesB (and the other step hypotheses) between consecutive states of every generated chain and reports any step where it fails, and runs the code-shaped incremental model (rotate/afterDeposit/afterUpgrade) next to ctxOf",
         technique="Lean 4 proof + Go/Lean three-way differential correspondence along chains",
         design_ref="DESIGN.md 5/C08", engine="lean"),
     assumptions=[
